@@ -577,7 +577,7 @@ Section Sound.
     set (chain := outchain nodes (length nodes) out).
     set (dl := deliveries p nodes).
     set (M0 := fst (fold_left (find_step (infos c p nodes) nodes (zmem p (cfg_outputs c)) chain) dl ([], []))).
-    destruct (inputs_okb c nodes && masks_okb (infos c p nodes) M0 &&
+    destruct (wf_okb c nodes && masks_okb (infos c p nodes) M0 &&
               forallb (deliv_okb (infos c p nodes) nodes (zmem p (cfg_outputs c)) chain M0) dl) eqn:Ck; [|discriminate].
     intros [= <-]. apply andb_true_iff in Ck as [Ck Hdl]. apply andb_true_iff in Ck as [_ Hmk].
     intros x x' Hx Hout.
